@@ -569,4 +569,98 @@ theorem importUint_reimport {w v : Nat} (optBits : Nat) (hv : v < 2 ^ w) (hw : w
 theorem valOf_reverse_importBytes (be : List Nat) (bits : Nat) :
     valOf (importBytes be bits).bytes = valOf be.reverse := rfl
 
+/-! ### OmitPrefix -/
+
+theorem removeAll2_clean (a b : Nat) : ∀ (s : List Nat), (∀ c ∈ s, c ≠ b) → removeAll2 a b s = s := by
+  intro s
+  fun_induction removeAll2 a b s with
+  | case1 x y rest hc ih =>
+    intro h
+    exact absurd hc.2 (h y (by simp))
+  | case2 x y rest hc ih =>
+    intro h
+    rw [ih (fun c hc => h c (List.mem_cons_of_mem _ hc))]
+  | case3 s hs => intro _; rfl
+
+theorem removeAll2_prefix (a b : Nat) (s : List Nat) : removeAll2 a b (a :: b :: s) = removeAll2 a b s := by
+  simp [removeAll2]
+
+theorem mem_of_allP {p : Nat → Bool} : ∀ {s : List Nat}, allP p s = true → ∀ c ∈ s, p c = true := by
+  intro s
+  induction s with
+  | nil => intro _ c hc; cases hc
+  | cons x xs ih =>
+    intro h c hc
+    simp only [allP, Bool.and_eq_true] at h
+    rcases List.mem_cons.mp hc with rfl | hc
+    · exact h.1
+    · exact ih h.2 c hc
+
+/-- dropping the prefix of `prefix ++ rest` returns `rest` when `rest` has no second prefix letter -/
+theorem omitPrefix_prefix (t : NType) (rest : List Nat) (h : ∀ c ∈ rest, c ≠ prefixLetter t) :
+    omitPrefix t (showPrefix t ++ rest) = rest := by
+  show removeAll2 48 (prefixLetter t) (48 :: prefixLetter t :: rest) = rest
+  rw [removeAll2_prefix, removeAll2_clean _ _ _ h]
+
+theorem omit_readd_bin (v : BMNumber) (h : v.ty = .bin) :
+    (exportStringOmit v).map (showPrefix .bin ++ ·) = exportString v := by
+  have hd10 := mem_of_allP (allDigit_digits10 v.bits)
+  have hd2 := mem_of_allP (allBin_digits2 (valOf v.bytes))
+  have hrest : ∀ c ∈ [60] ++ digits 10 v.bits ++ [62] ++ digits 2 (valOf v.bytes), c ≠ prefixLetter .bin := by
+    intro c hc heq
+    simp only [List.mem_append, List.mem_singleton] at hc
+    rcases hc with ((rfl | hc) | rfl) | hc
+    · exact absurd heq (by decide)
+    · have := hd10 c hc; rw [heq] at this; exact absurd this (by decide)
+    · exact absurd heq (by decide)
+    · have := hd2 c hc; rw [heq] at this; exact absurd this (by decide)
+  have e : exportString v = some (showPrefix .bin ++ ([60] ++ digits 10 v.bits ++ [62] ++ digits 2 (valOf v.bytes))) := by
+    simp [exportString, h, exportBinary, binRaw, showPrefix, prefixLetter]
+  simp only [exportStringOmit, e, Option.map_some, h, omitPrefix_prefix .bin _ hrest]
+
+theorem omit_readd_hex (v : BMNumber) (h : v.ty = .hex) :
+    (exportStringOmit v).map (showPrefix .hex ++ ·) = exportString v := by
+  have hd10 := mem_of_allP (allDigit_digits10 v.bits)
+  have hd16 := mem_of_allP (allHex_digits16 (valOf v.bytes))
+  have hrest : ∀ c ∈ [60] ++ digits 10 v.bits ++ [62] ++ digits 16 (valOf v.bytes), c ≠ prefixLetter .hex := by
+    intro c hc heq
+    simp only [List.mem_append, List.mem_singleton] at hc
+    rcases hc with ((rfl | hc) | rfl) | hc
+    · exact absurd heq (by decide)
+    · have := hd10 c hc; rw [heq] at this; exact absurd this (by decide)
+    · exact absurd heq (by decide)
+    · have := hd16 c hc; rw [heq] at this; exact absurd this (by decide)
+  have e : exportString v = some (showPrefix .hex ++ ([60] ++ digits 10 v.bits ++ [62] ++ digits 16 (valOf v.bytes))) := by
+    simp [exportString, h, showPrefix, prefixLetter]
+  simp only [exportStringOmit, e, Option.map_some, h, omitPrefix_prefix .hex _ hrest]
+
+/-- unsigned texts carry no prefix: the option changes nothing -/
+theorem omit_unsigned (v : BMNumber) (h : v.ty = .unsigned) : exportStringOmit v = exportString v := by
+  have hd10 := mem_of_allP (allDigit_digits10 (valOf v.bytes))
+  have hclean : ∀ c ∈ digits 10 (valOf v.bytes), c ≠ prefixLetter .unsigned := by
+    intro c hc heq
+    have := hd10 c hc; rw [heq] at this; exact absurd this (by decide)
+  unfold exportStringOmit exportString
+  rw [h]
+  simp only
+  split
+  · rfl
+  · simp only [Option.map_some, omitPrefix, removeAll2_clean _ _ _ hclean]
+
+/-- … and putting `0u` in front of the decimal text imports the same number -/
+theorem import_readd_unsigned (n : Nat) :
+    importString (showPrefix .unsigned ++ digits 10 n) = importString (digits 10 n) := by
+  obtain ⟨x, xs, hx, hd⟩ := head_digit_of_digits10 n
+  have hall := allDigit_digits10 n
+  have hc := classify_digits (nonEmptyAll_of (digits_ne_nil 10 n) hall)
+  have h60 : x ≠ 60 := by intro h; subst h; simp [isDigit] at hd
+  have hu : classify (showPrefix .unsigned ++ digits 10 n) = .unsignedNoSize (digits 10 n) := by
+    show unsignedTail (digits 10 n) = _
+    rw [hx] at hall ⊢
+    unfold unsignedTail
+    split
+    · rename_i heq; simp at heq; exact absurd heq.1 h60
+    · rw [spanP_all hall]
+  simp only [importString, hu, hc]
+
 end BMV.Numbers
